@@ -11,7 +11,7 @@ import (
 // change the logical contents of both indexes and the row/size statistics equal the model of the
 // committed changes applied in order (nothing lost, duplicated or reordered).
 //
-//symgo:harness prop=C16 tier=quick shards=16 timeout=500 ttimeout=1700 bounds=3_commits_of_1_change_each;merge_and_persist_compute/apply_split_with_a_commit_in_the_gap;6_schedules;1-byte_values outside=more_than_3_pending_layers;several_tables
+//symgo:harness prop=C16 tier=quick shards=16 timeout=700 ttimeout=1700 bounds=3_commits_of_1_change_each;merge_and_persist_compute/apply_split_with_a_commit_in_the_gap;6_schedules;1-byte_values outside=more_than_3_pending_layers;several_tables
 func VerifC16Pipeline() {
 	db := vnewdb()
 	vcreateT(db)
